@@ -286,6 +286,10 @@ class Interp:
             return bool(e["v"])
         if t in ("str", "char"):
             return ("str", e["v"])
+        if t == "byte":
+            return int(e["v"])
+        if t == "bytestr":
+            return ("bytesof", e["v"].encode())
         return OPAQUE
 
     def e_path(self, e):
@@ -691,15 +695,32 @@ class Interp:
             recv_list = recv[1]
         elif isinstance(recv, MutList):
             recv_list = recv
+        elif isinstance(recv, tuple) and recv[:1] == ("bytesof",) and m not in ("len", "get", "is_empty"):
+            recv_list = list(recv[1] if isinstance(recv[1], bytes) else recv[1].encode())
         else:
             recv_list = None
         if recv_list is not None and args and isinstance(args[0], dict) and args[0].get("k") == "closure":
             cl = args[0]
-            if m in ("position", "any", "all", "find", "find_map", "filter", "map", "retain", "filter_map", "for_each", "flat_map"):
+            if m in ("position", "any", "all", "find", "find_map", "filter", "map", "retain", "filter_map", "for_each", "flat_map", "take_while", "skip_while"):
                 res = []
                 for idx, x in enumerate(list(recv_list)):
                     r = self.call_closure(cl, [x])
                     res.append((idx, x, r))
+                if m == "take_while":
+                    out = []
+                    for idx, x, r in res:
+                        if not self.truth(r):
+                            break
+                        out.append(x)
+                    return ("list", out)
+                if m == "skip_while":
+                    out, skipping = [], True
+                    for idx, x, r in res:
+                        if skipping and self.truth(r):
+                            continue
+                        skipping = False
+                        out.append(x)
+                    return ("list", out)
                 if m == "position":
                     for idx, x, r in res:
                         if self.truth(r):
@@ -839,6 +860,70 @@ class Interp:
             return ("Some", ("str", recv[1][:-len(pre)])) if recv[1].endswith(pre) else ("None",)
         if m in ("starts_with", "ends_with", "contains") and isinstance(recv, tuple) and recv[:1] == ("str",) and args and isinstance(args[0], tuple) and args[0][:1] == ("str",):
             return {"starts_with": recv[1].startswith(args[0][1]), "ends_with": recv[1].endswith(args[0][1]), "contains": args[0][1] in recv[1]}[m]
+        if isinstance(recv, tuple) and recv[:1] == ("str",):
+            t = recv[1]
+            if m == "as_bytes":
+                return ("bytesof", t.encode())
+            if m == "len":
+                return len(t.encode())
+            if m == "chars":
+                return ("list", [("str", c) for c in t])
+            if m == "char_indices":
+                out, pos = [], 0
+                for c in t:
+                    out.append(("tuple", [pos, ("str", c)]))
+                    pos += len(c.encode())
+                return ("list", out)
+            if m == "bytes":
+                return ("list", list(t.encode()))
+            if m in ("find", "rfind") and args and _strval(args[0]) is not None:
+                raw, pat = t.encode(), _strval(args[0]).encode()
+                k = raw.find(pat) if m == "find" else raw.rfind(pat)
+                return ("Some", k) if k >= 0 else ("None",)
+            if m == "is_char_boundary" and args and isinstance(args[0], int):
+                raw = t.encode()
+                if args[0] > len(raw):
+                    return False
+                try:
+                    raw[:args[0]].decode()
+                    return True
+                except UnicodeDecodeError:
+                    return False
+            if m in ("is_ascii_whitespace", "is_whitespace") and len(t) == 1:
+                return t in " \t\n\r\x0c" if m == "is_ascii_whitespace" else t.isspace()
+            if m in ("is_ascii_alphanumeric", "is_alphanumeric", "is_ascii_digit", "is_ascii_alphabetic") and len(t) == 1:
+                asc = ord(t) < 128
+                return {"is_ascii_alphanumeric": asc and t.isalnum(), "is_alphanumeric": t.isalnum(), "is_ascii_digit": asc and t.isdigit(),
+                        "is_ascii_alphabetic": asc and t.isalpha()}[m]
+            if m == "len_utf8" and len(t) == 1:
+                return len(t.encode())
+        if isinstance(recv, tuple) and recv[:1] == ("bytesof",):
+            raw = recv[1]
+            if m == "len":
+                return len(raw)
+            if m in ("iter", "to_vec", "as_ref"):
+                return ("list", list(raw))
+            if m == "get" and args and isinstance(args[0], int):
+                return ("Some", raw[args[0]]) if 0 <= args[0] < len(raw) else ("None",)
+            if m == "is_empty":
+                return len(raw) == 0
+        if isinstance(recv, int) and not isinstance(recv, bool) and m.startswith("is_ascii"):
+            c = chr(recv) if 0 <= recv < 256 else None
+            if c is not None:
+                asc = recv < 128
+                if m == "is_ascii_whitespace":
+                    return c in " \t\n\r\x0c"
+                if m == "is_ascii_alphanumeric":
+                    return asc and c.isalnum()
+                if m == "is_ascii_digit":
+                    return asc and c.isdigit()
+                if m == "is_ascii_alphabetic":
+                    return asc and c.isalpha()
+                if m == "is_ascii":
+                    return asc
+                if m == "is_ascii_punctuation":
+                    import string
+                    return c in string.punctuation
         if m in ("to_string", "to_owned", "into", "as_str", "as_ref", "clone") and isinstance(recv, tuple) and recv[:1] == ("str",):
             return recv
         if m == "is_empty" and isinstance(recv, tuple) and recv[:1] == ("str",):
@@ -900,14 +985,39 @@ class Interp:
         b = self.eval(e["b"]) if e.get("b") else None
         if isinstance(a, int) and isinstance(b, int) and not isinstance(a, bool):
             hi = b + 1 if e.get("incl") else b
-            if hi - a > 256:
+            if hi - a > 4096:
                 raise Unknown("range too long")
             return ("list", list(range(a, hi)))
+        if (a is None or isinstance(a, int)) and (b is None or isinstance(b, int)):
+            return ("range", a, (b + 1) if (b is not None and e.get("incl")) else b)
         return OPAQUE
 
     def e_index(self, e):
         b = self.eval(e["e"])
         i = self.eval(e["i"])
+        sv = _strval(b)
+        if isinstance(i, tuple) and i[:1] == ("list",) and i[1] == list(range(i[1][0], i[1][-1] + 1)) if (isinstance(i, tuple) and i[:1] == ("list",) and i[1]) else False:
+            i = ("range", i[1][0], i[1][-1] + 1)
+        elif isinstance(i, tuple) and i[:1] == ("list",) and not i[1]:
+            i = ("range", 0, 0)
+        if isinstance(i, tuple) and i[:1] == ("range",) and (sv is not None or (isinstance(b, tuple) and b[:1] == ("bytesof",))):
+            raw = (sv if sv is not None else b[1]).encode() if not isinstance((sv if sv is not None else b[1]), bytes) else (sv if sv is not None else b[1])
+            lo = 0 if i[1] is None else i[1]
+            hi = len(raw) if i[2] is None else i[2]
+            if lo > hi or hi > len(raw):
+                raise Unknown("panic: slice index out of range (%d..%d of %d)" % (lo, hi, len(raw)))
+            if sv is not None:
+                try:
+                    raw[:lo].decode()
+                    return ("str", raw[lo:hi].decode())
+                except UnicodeDecodeError:
+                    raise Unknown("panic: slice index is not a char boundary (%d..%d)" % (lo, hi))
+            return ("bytesof", raw[lo:hi])
+        if isinstance(b, tuple) and b[:1] == ("bytesof",) and isinstance(i, int) and not isinstance(i, bool):
+            raw = b[1] if isinstance(b[1], bytes) else b[1].encode()
+            if 0 <= i < len(raw):
+                return raw[i]
+            raise Unknown("panic: index out of bounds (%d of %d)" % (i, len(raw)))
         if isinstance(b, tuple) and b[:1] == ("list",):
             b = b[1]
         if isinstance(b, list) and isinstance(i, int) and not isinstance(i, bool):
